@@ -488,7 +488,8 @@ def run(ctx):
         "(3 txs / 2 outpoints in flight per case), not proved",
         "theorem hypotheses (environment): client height hints not above the actual "
         "confirmation/spend height, historical-rescan answers truthful about the active chain "
-        "at delivery (no condition on registered clients since the repair af6371e), ConnectTip followed by NotifyHeight, reorgs shallower than "
+        "at delivery whenever the notifier still lacks the details (outdated answers are "
+        "unconstrained; no condition on registered clients since the repair af6371e), ConnectTip followed by NotifyHeight, reorgs shallower than "
         "reorgSafetyLimit below the highest tip seen, at most one inclusion of a txid / one "
         "spend of an outpoint on the active chain"])
     env = {}
@@ -597,7 +598,10 @@ def run(ctx):
         "rule": "one harness case = one chain history over 3 txs (T0/T1 conflicting spends of "
                 "outpoint 0, T2 spends outpoint 1) driven through the real TxNotifier + bbolt "
                 "HeightHintCache; evaluations = per-request projections checked against the "
-                "model (5 per case); non-trivial = more than 5 ops, distinct by full op list",
+                "model (5 per case); non-trivial = more than 5 ops, distinct by full op list; "
+                "every history is followed by a 'restart' case: fresh TxNotifier on the same hint "
+                "cache at the final tip, every request re-registered with hint = cached hint, "
+                "rescan served truthfully (client must be notified iff confirmed/spent)",
         "traces_validated_against_impl": len(rows),
         "ops_total": nops, "case_kinds": kinds, "op_kinds": opk, "rescan_answer_modes": modes,
         "event_channels": evk, "reorg_depth_hist": depth_hist,
